@@ -16,6 +16,8 @@ PIPE_NOTE = ('Trusted: the simulator (SimLoop keeps asyncio FIFO order; time mov
              "ndn's own network-layer decoders. Sampled, not exhaustive; abstains within 1.5 ms of a deadline tie.")
 
 ENGINES_META = [
+    {'name': 'sigs', 'path': 'engines/sigs.py', 'serves_properties': ['C02'],
+     'kind_free_text': 'consumer + producer NDNApp joined by a simulated link with a corrupting middlebox; recording signers/verifiers'},
     {'name': 'clientconf', 'path': 'engines/clientconf.py', 'serves_properties': ['C20'],
      'kind_free_text': 'read_client_conf/default_face/default_keychain/NDNApp() over a fake Linux environment and simulated network'},
     {'name': 'svs', 'path': 'engines/svs.py', 'serves_properties': ['C18'],
@@ -139,6 +141,26 @@ CHECKS['C20'] = dict(
           'asyncio.open_connection / open_unix_connection / create_datagram_endpoint (simulated network)', 'event loop (SimLoop)'],
     rule='seed i -> combination i mod 5120 of the precedence product + seeded values; non-trivial: values come from >=2 '
          'different sources or a configuration file exists; distinct = order signature (hash of the scenario shape)')
+
+
+CHECKS['C02'] = dict(
+    engine='sigs', design_ref='5 (C02)', level='exploration',
+    technique='two real applications on a simulated link with a corrupting middlebox (seeded single-byte, truncation and '
+              'TLV-structural faults) + recording signer/verifier proxies + independent TLV reader as oracle',
+    text='Every shipped signer (digest, HMAC, RSA, ECDSA with variable-length DER signatures, Ed25519, null, none) signs Data '
+         'and parameterised/signed Interests between a consumer and a producer application in all four front-end pairings; the '
+         'bytes handed to the signer and the bytes reported to the verifier are compared with the signed portion recomputed '
+         'from the wire; one seeded mutation per packet in flight; acceptance must imply an unchanged signed portion and '
+         'signature value; the parameters-digest check is compared with SHA-256(ApplicationParameters..end) on every Interest '
+         'that crossed the link.',
+    note='Trusted: the independent TLV reader (simkit/tlvref.py), pycryptodomex, SimLoop. The schedule dimension adds nothing to '
+         'this property; the simulator contributes the corruption fault model and the end-to-end observation. Packets with an '
+         'unrecognised element between SignatureInfo and SignatureValue are not judged (the two readings of "signed portion" differ).',
+    real=REAL_COMMON + ['ndn.security.signer.* (all six signers)', 'ndn.security.validator.known_key_validator and digest_validator',
+                        'ndn.appv2.NDNApp and ndn.app.NDNApp (express / handler dispatch / validation pipeline)'],
+    stub=STUB_COMMON + ['ECDSA nonce source (seeded randfunc via sha256_ecdsa_signer.DSS rebinding)', 'the link and its corrupting middlebox'],
+    rule='seed -> 1-5 flows (direction, signer, key, name, payload size class incl. 253/65536 boundaries, one mutation or none, '
+         'matching or wrong-key verifier); non-trivial: >=1 mutated packet; distinct = order signature of flow kinds')
 
 
 def run_check(prop, tier):
